@@ -299,8 +299,9 @@ def run(ctx, anchors=None):
         ctx.fail("R01.2", "conditional-dispatch-range", opstep.loc(main_sw), "the opcode switch is no longer guarded by the `fExec || <conditional opcode>` dispatch condition")
     else:
         try:
-            sel = [v for v in range(0, 256) if fd.ev(disp["cond"], {"fExec": 0, "opcode": v})]
-            selx = [v for v in range(0, 256) if fd.ev(disp["cond"], {"fExec": 1, "opcode": v})]
+            FX = common.executed_flag(opstep)
+            sel = [v for v in range(0, 256) if fd.ev(disp["cond"], {FX: 0, "opcode": v})]
+            selx = [v for v in range(0, 256) if fd.ev(disp["cond"], {FX: 1, "opcode": v})]
         except fd.Unknown as e:
             raise AnalysisBroken("R01.2: dispatch condition not evaluable: %s" % e)
         want = list(range(E["OP_IF"], E["OP_ENDIF"] + 1))
@@ -397,10 +398,11 @@ def run(ctx, anchors=None):
     if gate is None:
         ctx.fail("R01.7", "gate-present", opstep.loc(), "the disabled-opcode gate is missing from the operation step")
     else:
-        fexec_reads = [n for n in opstep.nodes() if n["k"] == "ref" and n["n"] == "fExec" and n.get("dk") == "local"]
+        FX = common.executed_flag(opstep)
+        fexec_reads = [n for n in opstep.nodes() if n["k"] == "ref" and n["n"] == FX and n.get("dk") == "local"]
         early = [r for r in fexec_reads if cfg.dominates(r, gate["cond"])]
-        nested = [(c, t) for (c, t) in S.ast_guards(opstep, gate) if any(x["k"] == "ref" and x["n"] == "fExec" for x in walk(c))]
-        incond = any(x["k"] == "ref" and x["n"] == "fExec" for x in walk(gate["cond"]))
+        nested = [(c, t) for (c, t) in S.ast_guards(opstep, gate) if any(x["k"] == "ref" and x["n"] == FX for x in walk(c))]
+        incond = any(x["k"] == "ref" and x["n"] == FX for x in walk(gate["cond"]))
         ctx.inst(not early and not nested and not incond, "R01.7", "gate-before-executed-test", opstep.loc(gate),
                  "disabled opcodes fail before the executed/unexecuted test",
                  "the disabled-opcode gate depends on fExec: a disabled opcode in an unexecuted branch no longer fails")
